@@ -32,6 +32,7 @@ with warnings.catch_warnings():
     from pexpect import ANSI
 
 NPROC = 8
+PART = 12              # symbols per trace event
 MAXFAIL = 40            # failing cases kept per clause and worker
 
 DESCR = {'C18': 'ANSI emulator: total, shape-preserving, chunk-independent',
@@ -49,7 +50,7 @@ DUMPS = {
     ('C18', 'thorough'): [(1, 1, 'Chars3', 1, 0, 3), (1, 2, 'Chars3', 1, 0, 3), (2, 1, 'Chars3', 1, 0, 3),
                           (2, 2, 'Chars2', 1, 0, 2), (2, 2, 'Chars3', 1, 11, 3), (3, 2, 'Chars3', 1, 9, 3)],
 }
-MC_CFG = {('C19', 'quick'): ['MCScreen_quick.cfg'], ('C19', 'thorough'): ['MCScreen_thorough.cfg', 'MCScreen_thorough2.cfg'],
+MC_CFG = {('C19', 'quick'): ['MCScreen_quick.cfg'], ('C19', 'thorough'): ['MCScreen_quick.cfg', 'MCScreen_thorough.cfg', 'MCScreen_thorough2.cfg', 'MCScreen_thorough3.cfg'],
           ('C18', 'quick'): ['MCAnsi_quick.cfg'], ('C18', 'thorough'): ['MCAnsi_thorough.cfg', 'MCAnsi_thorough2.cfg']}
 
 SCREEN_ACTIONS = ['Put', 'PutAbs', 'Insert', 'InsertAbs', 'Fill', 'FillRegion', 'Cr', 'Lf', 'Crlf', 'Newline', 'CursorHome',
@@ -156,7 +157,7 @@ class Graph(object):
         self.nd = {}
         for i in range(len(self.pre)):
             n = self.labels[self.lab[i]]
-            if n[0] == 'ScrollScreenRows' or (n[0] == 'Feed' and n[1][0] == 'r'):
+            if n[0] == 'ScrollScreenRows' or (n[0] in ('Feed', 'BFeed') and n[1][0] == 'r'):
                 self.nd.setdefault((self.pre[i], self.lab[i]), set()).add(self.post[i])
 
     def expected(self, i):
@@ -167,33 +168,42 @@ class Graph(object):
 
 
 def dump_cfg(ctx, pid, conf):
+    """-> (name, module, cfg path) of the configuration whose state graph is dumped"""
     R, C, chars, slack, maxlevel = conf[:5]
-    consts = [('Rows', '= %d' % R), ('Cols', '= %d' % C), ('Chars', '<- ' + chars), ('Slack', '= %d' % slack),
-              ('MaxLevel', '= %d' % maxlevel)]
+    consts = [('Rows', '= %d' % R), ('Cols', '= %d' % C), ('Chars', '<- ' + chars), ('Slack', '= %d' % slack)]
     invs = ['Shape', 'CursorOnScreen', 'SavedOnScreen', 'RegionValid']
-    cons = ['LevelBound']
     if pid == 'C18':
         consts.append(('MaxStack', '= %d' % conf[5]))
         invs += ['FsmTypeOK', 'NoResidue', 'Total', 'StackShape']
-        cons.append('StackBound')
+        cons = ['StackBound']
+        module, spec = 'MCAnsi', 'ASpec'
+        if maxlevel:                       # bounded input length: explicit step counter (MCAnsiB)
+            consts.append(('MaxSteps', '= %d' % maxlevel))
+            cons.append('StepBound')
+            module, spec = 'MCAnsiB', 'BSpec'
     else:
+        consts.append(('MaxLevel', '= %d' % maxlevel))
         invs += ['AccessorsAgree', 'Laws']
+        cons = ['LevelBound']
+        module, spec = 'MCScreen', 'SSpec'
     name = '%s_%dx%d_%s_l%d' % (pid, R, C, chars, maxlevel)
     p = os.path.join(ctx.work, name + '.cfg')
-    tlc.write_cfg(p, spec='SSpec' if pid == 'C19' else 'ASpec', constants=consts, invariants=invs, constraints=cons)
-    return name, p
+    tlc.write_cfg(p, spec=spec, constants=consts, invariants=invs, constraints=cons)
+    return name, module, p
 
 
 def dump_graph(ctx, pid, conf):
-    name, cfg = dump_cfg(ctx, pid, conf)
+    name, module, cfg = dump_cfg(ctx, pid, conf)
     dot = os.path.join(ctx.work, name + '.dot')
-    res = tlc.run('MCScreen' if pid == 'C19' else 'MCAnsi', cfg, ctx.work, workers=NPROC, timeout=1500,
+    res = tlc.run(module, cfg, ctx.work, workers=NPROC, timeout=1500,
                   extra=['-dump', 'dot,actionlabels', dot], outname=name + '.out')
     if not res['ok']:
         raise tlc.TLCError('%s: TLC failed on the reference model (violated=%s), see %s' % (name, res['violated'], res['out']))
     g = Graph(dot)
     os.remove(dot)
-    if len(g.states) != res['distinct'] or len(g.pre) != res['generated'] - 1:
+    # successors cut off by a CONSTRAINT (stack / level bound) are generated but not part of the graph
+    bounded = conf[4] != 0 or pid == 'C18'
+    if len(g.states) != res['distinct'] or len(g.pre) > res['generated'] - 1 or (not bounded and len(g.pre) != res['generated'] - 1):
         raise tlc.TLCError('%s: dumped graph has %d states / %d transitions, TLC reports %d / %d' % (
             name, len(g.states), len(g.pre), res['distinct'], res['generated'] - 1))
     return g, res
@@ -423,11 +433,9 @@ def _accessor_worker(rng_):
     g, R, C, table = _G['graph'], _G['R'], _G['C'], _G['table']
     os.chdir(_G['cwd'])
     col, objs = Collector(), Objects()
-    seen = set()
     for i in range(lo, hi):
         vi = i % len(SVARIANTS)
-        full = (g.states[i][0], vi) not in seen
-        seen.add((g.states[i][0], vi))
+        full = i in _G['full']
         accessor_test(objs, R, C, g.states[i], vi, table, col, full, random.Random(_G['seed'] * 1000003 + i))
     return col
 
@@ -811,7 +819,11 @@ def run_feed(R, C, enc, pieces):
             o.write(data)
         except Exception as e:
             exc = e
-        ev.append({'k': 'feed', 'syms': list(syms), 'obs': rec.obs(exc)})
+        syms = list(syms)
+        while len(syms) > PART:           # keep TLC's evaluation of one event shallow
+            ev.append({'k': 'part', 'syms': syms[:PART]})
+            syms = syms[PART:]
+        ev.append({'k': 'feed', 'syms': syms, 'obs': rec.obs(exc)})
         if exc is not None:
             break
     return ev
@@ -856,7 +868,7 @@ def sim_symbols(ctx, R, C, num, depth, seed):
     d = os.path.join(ctx.work, 'sim_%dx%d' % (R, C))
     os.makedirs(d, exist_ok=True)
     cfg = tlc.write_cfg(os.path.join(ctx.work, 'sim_%dx%d.cfg' % (R, C)), spec='SimSpec', constants=[
-        ('Rows', '= %d' % R), ('Cols', '= %d' % C), ('Chars', '<- Chars3'), ('Slack', '= 1'), ('MaxLevel', '= 0'), ('MaxStack', '= 9')],
+        ('Rows', '= %d' % R), ('Cols', '= %d' % C), ('Chars', '<- Chars3'), ('Slack', '= 1'), ('MaxStack', '= 9')],
         invariants=['Shape', 'CursorOnScreen', 'NoResidue', 'Total'])
     res = tlc.run('MCAnsi', cfg, ctx.work, workers=1, timeout=600, simulate='file=%s/t,num=%d' % (d, num), depth=depth, seed=seed,
                   outname='sim_%dx%d.out' % (R, C))
@@ -955,8 +967,8 @@ def validate(ctx, traces, R, C, tag, procs=NPROC, timeout=1500):
 def model_check(ctx, pid):
     out = []
     for cfg in MC_CFG[(pid, ctx.tier)]:
-        res = tlc.run('MCScreen' if pid == 'C19' else 'MCAnsi', cfg, ctx.work, workers=NPROC, timeout=1700,
-                      outname=cfg + '.out', heap='8g')
+        module = 'MCScreen' if pid == 'C19' else 'MCAnsiB' if 'BSpec' in open(os.path.join(tlc.SPEC, cfg)).read() else 'MCAnsi'
+        res = tlc.run(module, cfg, ctx.work, workers=NPROC, timeout=1700, outname=cfg + '.out', heap='8g')
         tlc.require_ok(res, cfg)
         if res['violated']:
             raise tlc.TLCError('%s: the reference model violates %s - a bug of the specification, see %s' % (
@@ -1047,7 +1059,10 @@ def run_c19(ctx):
         table = accessor_table(ctx, conf)
         t1 = time.time()
         seen_actions.update(graph_coverage(g, 'C19'))
-        shared = {'graph': g, 'R': R, 'C': C, 'cwd': ctx.work, 'table': table, 'seed': ctx.seed}
+        first = {}
+        for i, st in enumerate(g.states):         # all argument tuples of get_region once per (grid, variant), a sample otherwise
+            first.setdefault((st[0], i % len(SVARIANTS)), i)
+        shared = {'graph': g, 'R': R, 'C': C, 'cwd': ctx.work, 'table': table, 'seed': ctx.seed, 'full': set(first.values())}
         col = pool_map(_screen_worker, len(g.pre), shared)
         ntr = col.count['evaluations']
         col2 = pool_map(_accessor_worker, len(g.states), shared)
@@ -1144,9 +1159,9 @@ def run_c19(ctx):
 def trace_self_test(ctx, corpus, pid):
     import copy
     size = (3, 5) if (3, 5) in corpus else sorted(corpus)[0]
-    cands = [t for t in corpus[size] if len(t['ev']) >= 6 and all(e['obs']['raised'] == '' for e in t['ev'])]
+    cands = [t for t in corpus[size] if len(t['ev']) >= 6 and all('obs' in e and e['obs']['raised'] == '' for e in t['ev'][:6])]
     if not cands:
-        cands = [t for ts in corpus.values() for t in ts if len(t['ev']) >= 6]
+        cands = [t for ts in corpus.values() for t in ts if len(t['ev']) >= 6 and all('obs' in e for e in t['ev'][:6])]
         size = (cands[0]['meta']['rows'], cands[0]['meta']['cols'])
     t = cands[0]
     clean = copy.deepcopy(t); clean['id'] = 'clean'
